@@ -16,7 +16,7 @@ EXPLANATION = (
     "vertices and fixed flags behave as documented. Since a nonsingular system has a unique solution this is dx = -H^-1 b."
 )
 BOUNDS = {
-    "quick": "curated structures: 1..3 vertices of mixed compact dimension (2,3,3,6), <=3 edges of arity 1..3 in any vertex order incl. parallel and reversed edges, several fixed subsets, fix_first_pose in {True,False}; error dimension 2",
+    "quick": "exhaustive for <=2 vertices (dims 3,2) and <=2 edges of arity 1..2 in every vertex order x every fixed subset x fix_first_pose, plus curated structures: 1..3 vertices of mixed compact dimension (2,3,3,6), <=3 edges of arity 1..3 in any vertex order incl. parallel and reversed edges, several fixed subsets, fix_first_pose in {True,False}; error dimension 2",
     "thorough": "exhaustive: all ordered vertex tuples (arity 1..3) for <=2 edges over <=3 vertices, two dimension patterns, every fixed subset, both fix_first_pose values; plus seeded 4-vertex / 3..4-edge structures",
 }
 OUTSIDE = "rounding and the numerical quality of SuperLU; graphs beyond the bound (assembly is a fold over edges, the per-edge scatter is what is verified); edges naming the same vertex twice"
@@ -93,13 +93,15 @@ QUICK = [
     (["R2"], [(0,), (0,)], set(), True),
     (["SE3", "SE2"], [(1, 0)], set(), False),
     (["R3", "R2", "SE2"], [(0, 1, 2), (2, 1, 0)], {1}, True),
+    (["R2", "SE2", "R3"], [(0, 1, 2), (1, 0)], {2}, False),
+    (["SE2", "R3", "R2"], [(2, 0, 1), (0, 2), (2, 0)], set(), False),
 ]
 
 
-def _exhaustive():
+def _exhaustive(patterns=(["R2", "SE2", "SE3"], ["SE3", "R3", "R2"]), nvs=(1, 2, 3)):
     out = []
-    for pattern in (["R2", "SE2", "SE3"], ["SE3", "R3", "R2"]):
-        for nv in (1, 2, 3):
+    for pattern in patterns:
+        for nv in nvs:
             kinds = pattern[:nv]
             tuples = []
             for ar in (1, 2, 3):
@@ -122,6 +124,11 @@ def _name(s):
 
 def cases(tier):
     structs = list(QUICK)
+    seen0 = {_name(s) for s in structs}
+    for s in _exhaustive(patterns=(["SE2", "R2"],), nvs=(1, 2)):
+        if _name(s) not in seen0:
+            seen0.add(_name(s))
+            structs.append(s)
     if tier == "thorough":
         import random
 
